@@ -45,8 +45,10 @@ mod env_util {
     where
         Str: Into<Cow<'str, str>>,
     {
-        let mut outpath: Cow<str> = path.into();
-        let path = outpath.clone();
+        let path: Cow<str> = path.into();
+        // `outpath` is built in one pass over `path`: text up to `copied` has been emitted.
+        let mut outpath = String::new();
+        let mut copied = 0;
         for (match_start, _) in path.match_indices(ENV_PREFIX) {
             let env_name_start = match_start + ENV_PREFIX_LEN;
             let (_, tail) = path.split_at(env_name_start);
@@ -68,18 +70,19 @@ mod env_util {
                     if valid {
                         if let Ok(env_value) = std::env::var(&env_name) {
                             let match_end = env_name_start + env_name.len() + ENV_SUFFIX_LEN;
-                            // This simply rewrites the entire outpath with all instances
-                            // of this var replaced. Could be done more efficiently by building
-                            // `outpath` as we go when processing `path`. Not critical.
-                            outpath = outpath
-                                .replace(&path[match_start..match_end], &env_value)
-                                .into();
+                            outpath.push_str(&path[copied..match_start]);
+                            outpath.push_str(&env_value);
+                            copied = match_end;
                         }
                     }
                 }
             }
         }
-        outpath
+        if copied == 0 {
+            return path;
+        }
+        outpath.push_str(&path[copied..]);
+        outpath.into()
     }
 }
 
